@@ -52,6 +52,29 @@ def gen_cases(ctx):
     for n in (2, 3, 5):
         mk("ising_1d", n, 0, [1.0], h=[1.0] * n, j=[-1.0] * n); mk("ising_1d_uniform", n, 0, [-1.0, 1.0, 1.0])
         mk("heisenberg_1d", n, 0, [1.0, -2.0, 1.0, 0.0, 1.0]); mk("heisenberg_1d", n, 0, [1.0, 1.0, 1.0, -3.0, 1.0])
+    # an invalid size together with parameters that are all zero (the "nothing to build" exits must not come before the size check)
+    for kind, np_ in (("ising_1d_uniform", 3), ("heisenberg_1d", 5)):
+        for n in (0, 1):
+            for z in (0.0, -0.0):
+                mk(kind, n, 0, [z] * (np_ - 1) + [rparam(rng)]); mk(kind, n, 0, [z] * np_)
+    for kind, np_ in (("ising_2d_uniform", 3), ("heisenberg_2d", 5)):
+        for n, m in ((0, 0), (1, 1), (0, 3), (3, 1), (1, 4), (2, 0)):
+            mk(kind, n, m, [0.0] * (np_ - 1) + [rparam(rng)]); mk(kind, n, m, [-0.0] * np_)
+    for n in (0, 1):
+        mk("ising_1d", n, 0, [0.0], h=[0.0] * n, j=[-0.0] * n)
+    mk("ising_2d", 1, 1, [0.0], h=[0.0], j=[0.0, 0.0]); mk("ising_2d", 1, 3, [1.0], h=[0.0] * 3, j=[0.0] * 6); mk("ising_2d", 0, 2, [1.0], h=[], j=[])
+    # call history: the same builder asked first for a lattice that differs in exactly one parameter (or in none), on the same thread
+    for kind, np_, n, m in (("ising_1d_uniform", 3, 5, 0), ("heisenberg_1d", 5, 4, 0), ("ising_2d_uniform", 3, 2, 3), ("heisenberg_2d", 5, 3, 2), ("heisenberg_1d", 5, 9, 0)):
+        base = [rng.choice([0.7, -1.3, 2.0, 0.25]) for _ in range(np_)]
+        for pos in range(np_):
+            for other in (0.0, -base[pos], base[pos] + 1.0):
+                q = list(base); q[pos] = other
+                mk(kind, n, m, base, threads=1); cases[-1]["prev"] = [[float2bits(x) for x in q]]
+                mk(kind, n, m, q, threads=rng.choice([1, 3])); cases[-1]["prev"] = [[float2bits(x) for x in base], [float2bits(x) for x in base]]
+        mk(kind, n, m, base, threads=1); cases[-1]["prev"] = [[float2bits(x) for x in base]]
+    for n in (3, 5):
+        mk("ising_1d", n, 0, [0.8], h=[1.0, -2.0, 0.5, 1.0, 3.0][:n], j=[0.5, 1.5, -1.0, 2.0, 1.0][:n], threads=1); cases[-1]["prev"] = [[float2bits(-0.8)], [float2bits(0.0)]]
+    mk("ising_2d", 2, 2, [0.8], h=[1.0, -2.0, 0.5, 1.0], j=[0.5, 1.5, -1.0, 2.0, 1.0, 1.0, 2.0, -0.5], threads=1); cases[-1]["prev"] = [[float2bits(-0.8)], [float2bits(0.0)]]
     # thread-count sweep on fixed shapes (chunk boundaries incl. n < threads and n not divisible)
     for t in range(1, 17):
         mk("heisenberg_1d", 7, 0, [1.0, -0.5, 2.0, 0.3, 1.1], threads=t); mk("ising_1d_uniform", 33, 0, [0.7, 1.3, 0.9], threads=t)
@@ -93,6 +116,7 @@ def coq_term(case, res):
 
 def brief(case):
     return {"kind": case["kind"], "n": case["n"], "m": case["m"], "threads": case["threads"], "p": [bits2float(x) for x in case["p"]],
+            "called_before_with": [[bits2float(x) for x in q] for q in case.get("prev", [])],
             "h": [bits2float(x) for x in case["h"][:8]], "j": [bits2float(x) for x in case["j"][:8]]}
 
 def run_cases(ctx, cases):
